@@ -411,8 +411,8 @@ func (e *Engine) loopWrites(fr *Frame, st *State, blocks map[*ssa.BasicBlock]boo
 				} else if ok && !a.Heap {
 					cells[a] = true
 				} else if ok && a.Heap {
-					// a variable allocated inside the loop is a fresh object in every iteration
-					addTypeG("H", a.Type().(*types.Pointer).Elem(), !blocks[a.Block()])
+					// a local variable of this activation: a fresh object whether it is declared inside or before the loop
+					addTypeG("H", a.Type().(*types.Pointer).Elem(), false)
 				} else {
 					// store through arbitrary pointer: component determined by pointee root type
 					switch y := x.Addr.(type) {
